@@ -210,23 +210,39 @@ pub open spec fn ask_sent(this: HandleView, pid: int, q: int, l0: Seq<Eff>) -> S
     l0.push(Eff::NewReq(q)).push(Eff::Await(AwaitKind::Send)).push(Eff::Enq(this.mbx, env_view(pid, Some(q), this.mbx)))
 }
 
+/// the log of one ask exchange as a function of its outcome (q = the fresh request id, vid = id of a received value that
+/// failed to downcast)
+pub open spec fn ask_core_log<M, R>(this: HandleView, pid: int, q: int, vid: int, l0: Seq<Eff>, r: Result<R>, op: Seq<char>) -> Seq<Eff> {
+    let sent = ask_sent(this, pid, q, l0);
+    match r {
+        Ok(v) => sent.push(Eff::Await(AwaitKind::Reply)).push(Eff::ReplyRecv(q, val_id(v))),
+        Err(Error::Send { .. }) => dl_log::<M>(l0.push(Eff::NewReq(q)).push(Eff::Await(AwaitKind::Send)).push(Eff::Rejected(this.mbx, env_view(pid, Some(q), this.mbx))),
+                                             this.id, DeadLetterReason::ActorStopped, op),
+        Err(Error::Receive { .. }) => dl_log::<M>(sent.push(Eff::Await(AwaitKind::Reply)).push(Eff::ReplyClosed(q)), this.id, DeadLetterReason::ReplyDropped, op),
+        Err(Error::Downcast { .. }) => sent.push(Eff::Await(AwaitKind::Reply)).push(Eff::ReplyRecv(q, vid)),
+        Err(_) => l0,
+    }
+}
+/// which results an ask may produce, and that every error names this actor
+pub open spec fn ask_result_ok<R>(this: HandleView, r: Result<R>) -> bool {
+    match r {
+        Ok(_) => true,
+        Err(Error::Send { identity, .. }) => identity == this.id,
+        Err(Error::Receive { identity, .. }) => identity == this.id,
+        Err(Error::Downcast { identity, .. }) => identity == this.id,
+        Err(_) => false,
+    }
+}
+pub open spec fn recv_vid_at(l: Seq<Eff>, i: int) -> int {
+    if 0 <= i < l.len() { match l[i] { Eff::ReplyRecv(_, v) => v, _ => 0 } } else { 0 }
+}
+
 /// R_ask / R_blocking_ask (without deadlock-detection bookkeeping): a fresh request id, one enqueue attempt, then one wait on
 /// *that* request; Ok(v) only with the value received on it; Receive only when the reply sender was dropped; dead letters
 /// exactly on Send (ActorStopped) and Receive (ReplyDropped).
 pub open spec fn r_ask_core<M, R>(this: HandleView, pid: int, l0: Seq<Eff>, l1: Seq<Eff>, r: Result<R>, op: Seq<char>) -> bool {
-    let q = req_at(l1, l0.len() as int);
-    let sent = ask_sent(this, pid, q, l0);
-    match r {
-        Ok(v) => l1 =~= sent.push(Eff::Await(AwaitKind::Reply)).push(Eff::ReplyRecv(q, val_id(v))),
-        Err(Error::Send { identity, .. }) => identity == this.id
-            && l1 =~= dl_log::<M>(l0.push(Eff::NewReq(q)).push(Eff::Await(AwaitKind::Send)).push(Eff::Rejected(this.mbx, env_view(pid, Some(q), this.mbx))),
-                                 this.id, DeadLetterReason::ActorStopped, op),
-        Err(Error::Receive { identity, .. }) => identity == this.id
-            && l1 =~= dl_log::<M>(sent.push(Eff::Await(AwaitKind::Reply)).push(Eff::ReplyClosed(q)), this.id, DeadLetterReason::ReplyDropped, op),
-        Err(Error::Downcast { identity, .. }) => identity == this.id
-            && l1 =~= sent.push(Eff::Await(AwaitKind::Reply)).push(Eff::ReplyRecv(q, last_recv_vid(l1))),
-        Err(_) => false,
-    }
+    ask_result_ok(this, r)
+    && l1 =~= ask_core_log::<M, R>(this, pid, req_at(l1, l0.len() as int), recv_vid_at(l1, l1.len() - 1), l0, r, op)
 }
 
 /// R_kill: never suspends (no Await), exactly one try_send of Terminate on the *control* channel, no mailbox effect,
@@ -342,4 +358,241 @@ pub open spec fn spawn_tail(base: Seq<Eff>, r: HandleView, cap: usize, args_id: 
         .push(Eff::NewChan(r.mbx, cap as nat))
         .push(Eff::NewChan(r.ctl, 1))
         .push(Eff::Spawned(r.mbx, r.ctl, args_id))
+}
+
+// ---------------------------------------------------------------- deadlock detection (C14, C15)
+// reach(g, a, b): a chain of >= 1 wait-for edges leads from a to b.  has_path is proved sound AND complete
+// against it (completeness by the pigeonhole lemma lemma_reach_bounded: a shortest chain visits distinct keys).
+#[cfg(feature = "deadlock-detection")]
+pub open spec fn walk(g: Map<u64, Identity>, a: u64, n: nat) -> Option<u64>
+    decreases n
+{
+    if n == 0 { Some(a) } else {
+        match walk(g, a, (n - 1) as nat) {
+            Some(x) => if g.contains_key(x) { Some(g[x].id) } else { None },
+            None => None,
+        }
+    }
+}
+#[cfg(feature = "deadlock-detection")]
+pub open spec fn reach(g: Map<u64, Identity>, a: u64, b: u64) -> bool {
+    exists|n: nat| n >= 1 && #[trigger] walk(g, a, n) == Some(b)
+}
+
+#[cfg(feature = "deadlock-detection")]
+pub proof fn lemma_walk_none_stays(g: Map<u64, Identity>, a: u64, m: nat, n: nat)
+    requires walk(g, a, m) is None, m <= n
+    ensures walk(g, a, n) is None
+    decreases n
+{
+    if n > m { lemma_walk_none_stays(g, a, m, (n - 1) as nat); }
+}
+
+#[cfg(feature = "deadlock-detection")]
+pub proof fn lemma_no_reach_after_none(g: Map<u64, Identity>, a: u64, b: u64, i: nat)
+    requires
+        walk(g, a, i + 1) is None,
+        forall|j: nat| 1 <= j <= i ==> walk(g, a, j) != Some(b),
+    ensures !reach(g, a, b)
+{
+    assert forall|n: nat| n >= 1 implies #[trigger] walk(g, a, n) != Some(b) by {
+        if n > i { lemma_walk_none_stays(g, a, i + 1, n); }
+    }
+}
+
+/// walk is additive: walking j more steps from walk(i)
+#[cfg(feature = "deadlock-detection")]
+pub proof fn lemma_walk_add(g: Map<u64, Identity>, a: u64, i: nat, k: nat)
+    requires walk(g, a, i) is Some
+    ensures walk(g, a, i + k) == walk(g, walk(g, a, i)->Some_0, k)
+    decreases k
+{
+    if k > 0 {
+        lemma_walk_add(g, a, i, (k - 1) as nat);
+        assert(i + k - 1 == i + (k - 1) as nat);
+    }
+}
+
+#[cfg(feature = "deadlock-detection")]
+pub proof fn lemma_walk_prefix_some(g: Map<u64, Identity>, a: u64, m: nat, n: nat)
+    requires walk(g, a, n) is Some, m <= n
+    ensures walk(g, a, m) is Some
+    decreases n
+{
+    if m < n {
+        lemma_walk_prefix_some(g, a, m, (n - 1) as nat);
+    }
+}
+
+/// the set of nodes visited in steps 0..n (exclusive)
+#[cfg(feature = "deadlock-detection")]
+pub open spec fn visited(g: Map<u64, Identity>, a: u64, n: nat) -> Set<u64>
+    decreases n
+{
+    if n == 0 { Set::empty() } else { visited(g, a, (n - 1) as nat).insert(walk(g, a, (n - 1) as nat)->Some_0) }
+}
+
+#[cfg(feature = "deadlock-detection")]
+pub proof fn lemma_visited(g: Map<u64, Identity>, a: u64, n: nat)
+    requires
+        walk(g, a, n) is Some,
+        forall|i: nat, j: nat| i < j < n ==> walk(g, a, i) != walk(g, a, j),
+    ensures
+        visited(g, a, n).len() == n,
+        visited(g, a, n).subset_of(g.dom()),
+        forall|x: u64| visited(g, a, n).contains(x) ==> exists|i: nat| i < n && walk(g, a, i) == Some(x),
+    decreases n
+{
+    if n > 0 {
+        let m = (n - 1) as nat;
+        lemma_walk_prefix_some(g, a, m, n);
+        lemma_visited(g, a, m);
+        let x = walk(g, a, m)->Some_0;
+        // x is a key (it has a successor since walk(n) is Some)
+        assert(g.contains_key(x));
+        // x not visited before
+        if visited(g, a, m).contains(x) {
+            let i = choose|i: nat| i < m && walk(g, a, i) == Some(x);
+            assert(walk(g, a, i) == walk(g, a, m));
+            assert(false);
+        }
+        assert forall|y: u64| visited(g, a, n).contains(y) implies exists|i: nat| i < n && walk(g, a, i) == Some(y) by {
+            if y == x { assert(walk(g, a, m) == Some(y)); }
+            else { let i = choose|i: nat| i < m && walk(g, a, i) == Some(y); assert(i < n); }
+        }
+    }
+}
+
+#[cfg(feature = "deadlock-detection")]
+pub proof fn lemma_reach_bounded(g: Map<u64, Identity>, a: u64, b: u64)
+    requires reach(g, a, b)
+    ensures exists|n: nat| 1 <= n <= g.dom().len() && #[trigger] walk(g, a, n) == Some(b)
+{
+    let n0 = choose|n: nat| n >= 1 && #[trigger] walk(g, a, n) == Some(b);
+    lemma_min_exists(g, a, b, n0);
+    let n = choose|n: nat| 1 <= n <= n0 && #[trigger] walk(g, a, n) == Some(b) && forall|m: nat| 1 <= m < n ==> walk(g, a, m) != Some(b);
+    // distinctness of walk(0..n)
+    assert forall|i: nat, j: nat| i < j < n implies walk(g, a, i) != walk(g, a, j) by {
+        if walk(g, a, i) == walk(g, a, j) {
+            lemma_walk_prefix_some(g, a, j, n);
+            lemma_walk_prefix_some(g, a, i, n);
+            let k = (n - j) as nat;
+            lemma_walk_add(g, a, j, k);
+            lemma_walk_add(g, a, i, k);
+            assert(j + k == n);
+            assert(walk(g, a, i + k) == Some(b));
+            assert(1 <= i + k < n);
+            assert(false);
+        }
+    }
+    lemma_visited(g, a, n);
+    vstd::set_lib::lemma_len_subset(visited(g, a, n), g.dom());
+}
+
+#[cfg(feature = "deadlock-detection")]
+pub proof fn lemma_min_exists(g: Map<u64, Identity>, a: u64, b: u64, n0: nat)
+    requires n0 >= 1, walk(g, a, n0) == Some(b)
+    ensures exists|n: nat| 1 <= n <= n0 && #[trigger] walk(g, a, n) == Some(b) && forall|m: nat| 1 <= m < n ==> walk(g, a, m) != Some(b)
+    decreases n0
+{
+    if exists|m: nat| 1 <= m < n0 && walk(g, a, m) == Some(b) {
+        let m = choose|m: nat| 1 <= m < n0 && walk(g, a, m) == Some(b);
+        lemma_min_exists(g, a, b, m);
+    }
+}
+
+
+#[cfg(feature = "deadlock-detection")]
+pub open spec fn lock_map_at(l: Seq<Eff>, i: int) -> Map<u64, Identity> {
+    if 0 <= i < l.len() { match l[i] { Eff::Lock(g) => g, _ => Map::empty() } } else { Map::empty() }
+}
+
+/// WaitForGuard(key) dropped: one lock acquisition, exactly its own key removed, lock released; with a poisoned lock
+/// nothing happens (and nothing panics).
+#[cfg(feature = "deadlock-detection")]
+pub open spec fn guard_removed(key: u64, w0: World, w1: World) -> bool {
+    let g = lock_map_at(w1.log(), w0.log().len() as int);
+    if w0.poisoned() { w1.log() =~= w0.log() && w1.graph() == w0.graph() && !w1.lock_held() }
+    else { w1.log() =~= w0.log().push(Eff::Lock(g)).push(Eff::Unlock(g.remove(key))) && w1.graph() == g.remove(key) && !w1.lock_held() }
+}
+#[cfg(feature = "deadlock-detection")]
+pub open spec fn guard_dropped(g: Option<WaitForGuard>, w0: World, w1: World) -> bool {
+    &&& (match g { Some(x) => guard_removed(x.0, w0, w1), None => w1.log() =~= w0.log() && w1.graph() == w0.graph() && !w1.lock_held() })
+    &&& w1.current_actor() == w0.current_actor() && w1.poisoned() == w0.poisoned() && w1.mmon() == w0.mmon()
+    &&& w1.cap_cell() == w0.cap_cell() && w1.id_floor() == w0.id_floor() && w1.chan_floor() == w0.chan_floor()
+    &&& w1.dl_count() == w0.dl_count() && w1.own_strong() == w0.own_strong()
+}
+
+/// R_ask with deadlock detection.  Untracked caller (no task-local identity): exactly the core relation, the graph and its
+/// lock are never touched.  Tracked caller c: under ONE lock acquisition the cycle check (self-ask or a chain of edges from
+/// the callee back to c => the function does not return: deliberate panic) and then the insertion of edge c -> callee;
+/// the core exchange; on every exit the guard removes exactly c's edge.
+#[cfg(feature = "deadlock-detection")]
+pub open spec fn r_ask_tracked_log<M, R>(this: HandleView, pid: int, c: Identity, l0: Seq<Eff>, l1: Seq<Eff>, r: Result<R>, op: Seq<char>) -> bool {
+    let g = lock_map_at(l1, l0.len() as int);
+    let g2 = lock_map_at(l1, l1.len() - 2);
+    let pre = l0.push(Eff::Lock(g)).push(Eff::Unlock(g.insert(c.id, this.id)));
+    &&& c.id != this.id.id
+    &&& !reach(g, this.id.id, c.id)
+    &&& ask_result_ok(this, r)
+    &&& l1 =~= ask_core_log::<M, R>(this, pid, req_at(l1, l0.len() as int + 2), recv_vid_at(l1, l1.len() - 3), pre, r, op)
+                .push(Eff::Lock(g2)).push(Eff::Unlock(g2.remove(c.id)))
+}
+#[cfg(feature = "deadlock-detection")]
+pub open spec fn r_ask<M, R>(this: HandleView, pid: int, w0: World, w1: World, r: Result<R>, op: Seq<char>) -> bool {
+    match w0.current_actor() {
+        None => r_ask_core::<M, R>(this, pid, w0.log(), w1.log(), r, op) && w1.graph() == w0.graph(),
+        Some(c) => r_ask_tracked_log::<M, R>(this, pid, c, w0.log(), w1.log(), r, op)
+            && w1.graph() == lock_map_at(w1.log(), w1.log().len() - 2).remove(c.id),
+    }
+}
+/// R_ask_timeout with deadlock detection: as without, and for a tracked caller the wait-for edge is gone afterwards whatever
+/// the outcome (completion, error, or cancellation by the timer: the guard is dropped with the cancelled future).
+#[cfg(feature = "deadlock-detection")]
+pub open spec fn r_ask_timeout<M, R>(this: HandleView, pid: int, d: Duration, w0: World, w1: World, r: Result<R>, op: Seq<char>) -> bool {
+    let l0 = w0.log();
+    let l1 = w1.log();
+    match w0.current_actor() {
+        None => {
+            let q = req_at(l1, l0.len() as int);
+            w1.graph() == w0.graph() && match r {
+                Err(Error::Timeout { identity, timeout, operation }) => identity == this.id && timeout == d && operation@ == op
+                    && (l1 =~= dl_log::<M>(l0.push(Eff::NewReq(q)).push(Eff::TimeoutArmed(d)), this.id, DeadLetterReason::Timeout, op)
+                        || l1 =~= dl_log::<M>(ask_sent(this, pid, q, l0).push(Eff::TimeoutArmed(d)), this.id, DeadLetterReason::Timeout, op)),
+                _ => l1.len() > 0 && l1.last() == Eff::TimeoutArmed(d) && r_ask_core::<M, R>(this, pid, l0, l1.drop_last(), r, op),
+            }
+        },
+        Some(c) => {
+            let g = lock_map_at(l1, l0.len() as int);
+            let pre = l0.push(Eff::Lock(g)).push(Eff::Unlock(g.insert(c.id, this.id)));
+            let q = req_at(l1, l0.len() as int + 2);
+            &&& c.id != this.id.id
+            &&& !reach(g, this.id.id, c.id)
+            &&& !w1.graph().contains_key(c.id)
+            &&& match r {
+                Err(Error::Timeout { identity, timeout, operation }) => identity == this.id && timeout == d && operation@ == op
+                    && (l1 =~= dl_log::<M>(pre.push(Eff::NewReq(q)).push(Eff::TimeoutArmed(d)), this.id, DeadLetterReason::Timeout, op)
+                        || l1 =~= dl_log::<M>(ask_sent(this, pid, q, pre).push(Eff::TimeoutArmed(d)), this.id, DeadLetterReason::Timeout, op)),
+                _ => l1.len() > 0 && l1.last() == Eff::TimeoutArmed(d) && r_ask_tracked_log::<M, R>(this, pid, c, l0, l1.drop_last(), r, op),
+            }
+        },
+    }
+}
+
+/// C15 soundness: what the deliberate deadlock panic needs in order to be justified — a self-ask, or a chain of edges from the
+/// callee back to the caller every one of which is an ask that has NOT been answered yet.  The graph stores edges, not whether
+/// the ask behind an edge has already been answered (an edge outlives its reply until the asker is polled again), so
+/// `chain_unanswered` is information the code does not have: uninterpreted.
+#[cfg(feature = "deadlock-detection")]
+pub uninterp spec fn chain_unanswered(g: Map<u64, Identity>, from: u64, to: u64) -> bool;
+
+pub open spec fn same_ambient_but_dl_graph(w0: World, w1: World) -> bool {
+    &&& w1.current_actor() == w0.current_actor()
+    &&& w1.lock_held() == w0.lock_held()
+    &&& w1.poisoned() == w0.poisoned()
+    &&& w1.mmon() == w0.mmon()
+    &&& w1.cap_cell() == w0.cap_cell()
+    &&& w1.id_floor() == w0.id_floor()
+    &&& w1.chan_floor() == w0.chan_floor()
+    &&& w1.own_strong() == w0.own_strong()
 }
